@@ -66,8 +66,23 @@ def native_dqn_replay(model):
     from lerax.policy import MLPQPolicy
     from lvc.generic import GenericEnv
     E = GenericEnv(Discrete(3), observation_space=OBS)
+    for tied in (False, True):
+        r = _native_dqn_replay_one(E, tied)
+        if r.get("reproduced"):
+            return r
+    return r
+
+
+def _native_dqn_replay_one(E, tied):
+    from lerax.policy import MLPQPolicy
     pol = MLPQPolicy(E, width_size=8, depth=1, key=jax.random.key(0))
     tgt = MLPQPolicy(E, width_size=8, depth=1, key=jax.random.key(1))
+    if tied:   # exactly tied online Q-values at every state (zeroed output layer): the greedy action is the FIRST arg-max, one action
+        leaves, td = jax.tree.flatten(pol)
+        arr = [i for i, l in enumerate(leaves) if eqx.is_inexact_array(l)]
+        for i in arr[-2:]:
+            leaves[i] = jnp.zeros_like(leaves[i])
+        pol = jax.tree.unflatten(td, leaves)
     rng = np.random.RandomState(2)
     B = 8
     rb = ReplayBuffer(B, OBS, Discrete(3), None)
@@ -84,7 +99,7 @@ def native_dqn_replay(model):
     y = np.asarray(rb.rewards) + gamma * (1 - term.astype(np.float32)) * qt[np.arange(B), qn.argmax(1)]
     exp = float(np.mean((q[np.arange(B), a] - y) ** 2) / 2)
     if abs(got - exp) > 1e-4 * (1 + abs(exp)):
-        return dict(reproduced=True, route="R1", inputs=dict(dones=np.asarray(rb.dones).tolist(), timeouts=np.asarray(rb.timeouts).tolist(), gamma=gamma),
+        return dict(reproduced=True, route="R1", inputs=dict(dones=np.asarray(rb.dones).tolist(), timeouts=np.asarray(rb.timeouts).tolist(), gamma=gamma, online_q_values_tied=tied),
                     observed=dict(loss=got, published=exp))
     return dict(reproduced=False, note="native loss agrees with the published Double-DQN target on all done/timeout combinations")
 
